@@ -339,10 +339,26 @@ def check_framing(run):
                "m_encoder.rotate_output(out) must run unconditionally after the optional export and the break")
         ok, ln, why = reset_at_exit(rf, "m_blocks_written", facts)
         if ok:
-            # the break decision has to read the counter before anything clears it
-            early = [w for w in member_writes(rf, "m_blocks_written") if brk and w[0] < brk[0][0] and w[1] == "="]
-            if early:
-                ok, ln, why = False, early[0][2]["l"], "m_blocks_written is overwritten before the closing break is decided"
+            # where the break is decided: the read of the counter (in the condition itself or in the definition of the flag the
+            # condition tests).  It has to come after the optional export - which may write the first block of this output -
+            # and before anything clears the counter.
+            order = {id(n_): i_ for i_, n_ in enumerate(ir.walk(rf["body"]))}
+            lhs_ids = set(id(n_["lhs"]) for n_ in ir.walk(rf["body"]) if n_.get("k") == "Bin" and n_.get("op", "").endswith("=") and
+                          n_["op"] not in ("==", "!=", "<=", ">=") and isinstance(n_.get("lhs"), dict))
+            reads = [n_ for n_ in ir.walk(rf["body"]) if n_.get("k") == "Member" and n_.get("n") == "m_blocks_written" and id(n_) not in lhs_ids and
+                     not any(p_.get("k") == "Un" and p_.get("op") in ("pre++", "post++") for p_ in [n_])]
+            stores = [n_ for n_ in ir.walk(rf["body"]) if n_.get("k") == "Bin" and n_.get("op") == "=" and path(n_.get("lhs")) == ("this", "m_blocks_written")]
+            exports = [e[1] for e in exp]
+            if not reads:
+                ok, ln, why = None, rf["line"], "no read of m_blocks_written found in rotate_output"
+            else:
+                rd = min(order[id(n_)] for n_ in reads)
+                if any(order[id(s_)] < rd for s_ in stores):
+                    first = [s_ for s_ in stores if order[id(s_)] < rd][0]
+                    ok, ln, why = False, first.get("l", rf["line"]), "m_blocks_written is overwritten before the closing break is decided"
+                elif any(order[id(e_)] > rd for e_ in exports):
+                    ok, ln, why = False, reads[0].get("l", rf["line"]), "whether the output needs its closing break is decided before the buffered block is exported: " \
+                        "when that export writes the first block of this output, the break is missing and the closed file is truncated CBOR"
         run.ob("R02.3", "%s:counter-reset" % tag, ok, rf, ln, why)
 
     # --- destructor: break iff blocks
